@@ -64,8 +64,13 @@ claim("C17",
       "Every function of the reservation service that creates, deletes or labels pods runs only with the per-group mutex held for that group (one reviewed exception); acquire and release are paired on every exit and the group mutex changes its reference count exactly once per handed-out mutex; pod delete/completion handlers, the BindRequest delete handler, bind, rollback and start-up reach the per-group sync; the sync deletes a reservation pod only without live consumers, running consumers only without a reservation; the consumer's label patch goes through the caller's pod object. The iff-invariant over interleavings and crashes is not decided.",
       NOTE)
 
+claim("C18",
+      "must-pass-through and guard dominance in ApplyToCluster, must-definition of the foreign-owned fields in ignoreFields (value provenance from the stored object, guards free of conditions on the computed value), argument orientation of the map comparisons with sibling agreement, nil-vs-empty analysis of the desired object against the comparison used, who-may-call scan for clock/random sources, map-order sinks, parameter dependence of PodGroup names",
+      "The PodGroup is updated only after ignoreFields and only behind !podGroupsEqual on its result, created only behind NotFound; ignoreFields restores Spec.MarkUnschedulable/SchedulingBackoff/Queue on every path and the node-pool and queue labels whenever the stored object has them; labels/annotations are compared computed→stored like the update copies them; an empty omitempty collection cannot make an unchanged workload unequal; the grouper uses no clock/random/uuid and no unsorted map iteration feeds an ordered value; PodGroup names depend on the pod only for the reviewed per-pod kinds. Cross-reconcile relations are not decided.",
+      NOTE)
+
 NA = {
     "C15": "quantifies over infinite executions of a closed system (lasso freedom); no static shape of the code settles it. Its three guards (strict saturation comparison with multiplier >= 1, strictly-lower priority for preempt, consolidation only when all victims are re-placed) are decided as clauses of C07 and C06.",
 }
-for _p in ["C04","C05","C09","C16","C18","C19","C20"]:
+for _p in ["C04","C05","C09","C16","C19","C20"]:
     NA.setdefault(_p, "check under construction in this session (see DESIGN.md §4 for the planned static obligations); not claimed until the check exists")
